@@ -88,7 +88,8 @@ def offset_for(files, info, kind, at):
 
 
 def run_behaviour(item):
-    beh, kind, at = item
+    beh, kind, at = item[:3]
+    furniture = item[3] if len(item) > 3 else "none"
     common.use_repo()
     from rope.base import project as project_mod, exceptions
     from rope.refactor import change_signature as cs_mod, introduce_parameter as ip_mod
@@ -96,14 +97,14 @@ def run_behaviour(item):
     sig0, sig1 = beh["sig0"], beh["sig1"]
     sites = beh["sites"]
     calls0 = [s["c0"] for s in sites]
-    res = {"beh": beh, "kind": kind, "at": at, "fails": [], "outcome": None}
+    res = {"beh": beh, "kind": kind, "at": at, "furniture": furniture, "fails": [], "outcome": None}
     # ---- spec vs CPython on the binding rule (before and after, spec's own calls)
     bad = pc.flat_check(sig0, calls0, [s["b0"] for s in sites])
     if bad is None:
         bad = pc.flat_check(sig1, [s["c1"] for s in sites], [s["exp"] for s in sites])
     if bad:
         return {"machinery": "spec vs CPython: " + bad, "item": [beh["chg"], sig0]}
-    files, info = pc.render_sig_program(kind, sig0, calls0)
+    files, info = pc.render_sig_program(kind, sig0, calls0, furniture)
     root = common.scratch("c06_")
     try:
         for p, s in files.items():
@@ -323,7 +324,7 @@ def features(beh, r):
         key.update({
             "ops": ops, "star_args": sig0["va"], "star_kw": sig0["kw"], "has_default": has_default,
             "kwonly": sig0.get("ko", 0),
-            "kind": r["kind"],
+            "kind": r["kind"], "furniture": r.get("furniture"),
             "bad_site_classes": sorted({x for k in bad for x in cls(sites[k])}) if bad else [],
             "exc": (r.get("exc") or "").split(":")[0] or None,
         })
@@ -426,7 +427,8 @@ def main(tier):
         at = "def"
         if n and rnd.random() < 0.5 and b["chg"][0]["op"] != "intro":
             at = rnd.randrange(n)
-        items.append((b, kind, at))
+        # what else the modules contain around the sites (spec constant Furniture)
+        items.append((b, kind, at, rnd.choice(sorted(b["furniture"]))))
     total_from_tlc = len(b1) + len(b2) + len(b3)
     counts = {"changed": 0, "noop": 0, "refused": 0, "error": 0}
     by_op = {}
@@ -460,7 +462,8 @@ def main(tier):
                                   "discarded_before": beh.get("pre"), "at": r["at"], "outcome": r["outcome"], "exc": r.get("exc"),
                                   "detail": r.get("detail"), "after": r.get("after"),
                                   "before": pc.render_sig_program(r["kind"], beh["sig0"],
-                                                                  [s["c0"] for s in beh["sites"]])[0]})
+                                                                  [s["c0"] for s in beh["sites"]],
+                                                                  r.get("furniture", "none"))[0]})
     if replayed and counts["changed"] < replayed * 0.3:
         verdict.machinery_failure("vacuous: only %d of %d replays changed anything (%s)" % (
             counts["changed"], replayed, counts))
